@@ -193,6 +193,165 @@ func runMpsc(seed uint64, scale int, out string, _ string) *summary {
 			}
 		}
 	}
+	// ---- (d) an offer made while another producer is in the middle of growing the queue (parked inside
+	// resize, producer index odd) must wait for the growth to finish and then be accepted: the queue is
+	// far from its maximum
+	for rep := 0; rep < 2*scale; rep++ {
+		for _, pr := range pairs {
+			if roundPow2(pr[0]) >= roundPow2(pr[1]) {
+				continue
+			}
+			q := otter.VerifNewMPSC(pr[0], pr[1])
+			capacity := q.Capacity()
+			where := 2 + (rep+int(pr[0]))%3 // hook 2, 3 or 4 of resize
+			var tok atomic.Int64
+			arrived := make(chan struct{}, 1)
+			release := make(chan struct{})
+			otter.VerifSetQueueHook(func(id int) {
+				if id == where && tok.CompareAndSwap(1, 0) {
+					arrived <- struct{}{}
+					<-release
+				}
+			})
+			held := 0
+			next := 0
+			grown := false
+			for held < capacity-2 && !grown {
+				next++
+				v := next
+				tok.Store(1)
+				done := make(chan bool, 1)
+				go func() { done <- q.TryPush(v) }()
+				select {
+				case ok := <-done:
+					tok.Store(0)
+					if !ok {
+						sum.fail("C16", "refused-not-full", "an offer was refused although the buffer holds fewer than its maximum", fmt.Sprintf("init=%d max=%d held=%d capacity=%d", pr[0], pr[1], held, capacity))
+					} else {
+						held++
+					}
+				case <-arrived:
+					// producer A is parked inside resize; producer B offers now
+					grown = true
+					next++
+					w := next
+					doneB := make(chan bool, 1)
+					go func() { doneB <- q.TryPush(w) }()
+					early := false
+					select {
+					case okB := <-doneB:
+						early = true
+						if !okB {
+							sum.fail("C16", "refused-not-full", "an offer made while another producer was growing the queue was refused although the buffer holds fewer than its maximum",
+								fmt.Sprintf("init=%d max=%d held=%d capacity=%d hook=%d", pr[0], pr[1], held+1, capacity, where))
+						} else {
+							held++
+						}
+					case <-time.After(2 * time.Millisecond):
+					}
+					close(release)
+					if okA := <-done; okA {
+						held++
+					} else {
+						sum.fail("C16", "refused-not-full", "the growing producer's own offer was refused", fmt.Sprintf("init=%d max=%d", pr[0], pr[1]))
+					}
+					if !early {
+						select {
+						case okB := <-doneB:
+							if !okB {
+								sum.fail("C16", "refused-not-full", "an offer that waited for a growth step was refused although the buffer holds fewer than its maximum",
+									fmt.Sprintf("init=%d max=%d held=%d capacity=%d hook=%d", pr[0], pr[1], held, capacity, where))
+							} else {
+								held++
+							}
+						case <-time.After(5 * time.Second):
+							sum.fail("C16", "stuck-offer", "an offer never returned after the growth step finished", fmt.Sprintf("init=%d max=%d", pr[0], pr[1]))
+						}
+					}
+					sum.Dist["offer_during_growth"]++
+				}
+			}
+			otter.VerifSetQueueHook(nil)
+			// everything accepted comes out exactly once (the two racing offers in either order)
+			got := map[int]int{}
+			n := 0
+			for {
+				v, ok := q.TryPop()
+				if !ok {
+					break
+				}
+				got[v]++
+				n++
+			}
+			if n != held || len(got) != held {
+				sum.fail("C16", "lost", "accepted events were not all consumed exactly once after a growth step", fmt.Sprintf("init=%d max=%d accepted=%d consumed=%d distinct=%d", pr[0], pr[1], held, n, len(got)))
+			}
+			sum.Cases++
+			sum.Ops += next
+			seen[fmt.Sprintf("growth/%d/%d/%d", pr[0], pr[1], where)] = true
+		}
+	}
+	// ---- (e) free-running producers whose total never reaches the maximum: no offer may be refused
+	for rd := 0; rd < 150*scale; rd++ {
+		in := []uint32{2, 4, 8, 16}[r.intn(4)]
+		q := otter.VerifNewMPSC(in, 4096)
+		P := 2 + r.intn(9)
+		per := 16 + r.intn(300)
+		for P*per > q.Capacity() {
+			per /= 2
+		}
+		var refused atomic.Int64
+		var wg sync.WaitGroup
+		start := make(chan struct{})
+		for p := 0; p < P; p++ {
+			wg.Add(1)
+			go func(p int) {
+				defer wg.Done()
+				<-start
+				for i := 0; i < per; i++ {
+					if !q.TryPush(p*1000000 + i) {
+						refused.Add(1)
+					}
+				}
+			}(p)
+		}
+		close(start)
+		wg.Wait()
+		last := make([]int, P)
+		for i := range last {
+			last[i] = -1
+		}
+		got, bad := 0, ""
+		for {
+			v, ok := q.TryPop()
+			if !ok {
+				break
+			}
+			pp, i := v/1000000, v%1000000
+			if pp < 0 || pp >= P || i <= last[pp] {
+				if bad == "" {
+					bad = fmt.Sprintf("producer=%d got index %d after %d", pp, i, last[min(max(pp, 0), P-1)])
+				}
+			}
+			if pp >= 0 && pp < P {
+				last[pp] = i
+			}
+			got++
+		}
+		desc := fmt.Sprintf("mpsc below-maximum stress init=%d max=4096 producers=%d x %d", in, P, per)
+		if n := refused.Load(); n != 0 {
+			sum.fail("C16", "refused-not-full", "offers were refused although the buffer never held its maximum", fmt.Sprintf("%s refused=%d", desc, n))
+		}
+		if int64(got) != int64(P*per)-refused.Load() {
+			sum.fail("C16", "lost", "accepted events were not all consumed", fmt.Sprintf("%s consumed=%d refused=%d", desc, got, refused.Load()))
+		}
+		if bad != "" {
+			sum.fail("C16", "producer-order", "events of one producer were consumed out of order or duplicated", desc+" "+bad)
+		}
+		sum.Cases++
+		sum.Ops += P * per
+		seen[fmt.Sprintf("below/%d", in)] = true
+	}
 	// ---- (c) stress
 	rounds := 30 * scale
 	for rd := 0; rd < rounds; rd++ {
